@@ -109,19 +109,12 @@ theorem obs_transfer {s : State} {l : Label} {o : Obs} (h : l ∈ obsLabels (N s
   cases o with
   | bcall x => simpa [obsLabels] using h
   | bret t => simpa [obsLabels] using h
-  | scall => simpa [obsLabels] using h
+  | scall n => simpa [obsLabels] using h
   | sret t => simpa [obsLabels] using h
   | ccall => simpa [obsLabels] using h
   | cret => simpa [obsLabels] using h
   | bacq x => simpa [obsLabels] using h
-  | cancel t =>
-    simp only [obsLabels, mem_filterMap_range] at h ⊢
-    obtain ⟨i, hi, hg⟩ := h
-    refine ⟨i, by simpa using hi, ?_⟩
-    rw [N_get] at hg
-    cases hu : s.subs[i]? with
-    | none => simp [hu] at hg
-    | some u => simpa [hu] using hg
+  | cancel t => simpa [obsLabels] using h
   | recv t x =>
     simp only [obsLabels, mem_filterMap_range] at h ⊢
     obtain ⟨i, hi, hg⟩ := h
@@ -144,8 +137,8 @@ set_option linter.unusedSimpArgs false
 /-! ### the reduction is a simulation -/
 
 def Label.global : Label → Bool
-  | .bcCall _ | .bcAcquire _ | .bcFinish | .bcReturn _ | .subCall | .subAcquire _ | .subReturn _
-  | .closeCall | .closeCas | .closeChClose | .closePass | .closeReturn => true
+  | .bcCall _ | .bcAcquire _ | .bcFinish | .bcReturn _ | .subCall _ | .subAcquire _ _
+  | .subReturn _ | .cancel _ | .closeCall | .closeCas | .closeChClose | .closePass | .closeReturn => true
   | _ => false
 
 @[simp] theorem allDone_N (s : State) : allDone (N s) = allDone s := by
@@ -158,17 +151,29 @@ def Label.global : Label → Bool
 @[simp] theorem N_nextTag (s : State) : (N s).nextTag = s.nextTag := by simp [N_def]
 @[simp] theorem N_closeReturned (s : State) : (N s).closeReturned = s.closeReturned := by simp [N_def]
 
-theorem normSub_new (a b c : Nat) : normSub (Sub.new a b c) = Sub.new a b c := by
+theorem normSub_new (a b c d : Nat) : normSub (Sub.new a b c d) = Sub.new a b c d := by
   simp [normSub, Sub.new]
+
+@[simp] theorem newSubs_N (s : State) (t j : Nat) : newSubs (N s) t j = newSubs s t j := by
+  simp [newSubs]
+
+@[simp] theorem map_normSub_newSubs (s : State) (t j : Nat) :
+    (newSubs s t j).map normSub = newSubs s t j := by
+  simp [newSubs, List.map_map, Function.comp_def, normSub_new]
+
+theorem cancelSub_normSub (c : Nat) (u : Sub) : cancelSub c (normSub u) = normSub (cancelSub c u) := by
+  unfold cancelSub
+  cases hp : u.pc <;> by_cases hc : u.call = c <;> simp [normSub, hp, hc]
 
 theorem step_N_global {v : Variant} {s : State} {l : Label} (hl : l.global = true) :
     step v (N s) l = (step v s l).map N := by
   cases l <;> simp [Label.global] at hl <;>
-    simp only [step, bcCall, bcAcquire, bcFinish, bcReturn, subCall, subAcquire, subReturn, closeCall,
+    simp only [step, bcCall, bcAcquire, bcFinish, bcReturn, subCall, subAcquire, subReturn, cancel, closeCall,
       closeCas, closeChClose, closePass, closeReturn, N_bc, N_waitB, N_waitS, N_closed, N_closeCh,
       N_retB, N_retS, N_closeNew, N_closePre, N_closePost, allDone_N, N_log, N_currentID,
       N_nextTicket, N_returnedT, N_nextTag, N_closeReturned, N_subs, List.length_map]
-  all_goals (repeat' split) <;> simp_all [N_def, normSub_new]
+  all_goals (repeat' split) <;>
+    simp_all [N_def, normSub_new, List.map_map, Function.comp_def, cancelSub_normSub, newSubs]
 def SimOK (v : Variant) (hooked : Bool) (s : State) (l : Label) (x' : State) : Prop :=
   ∃ l' s', step v s l' = some s' ∧ N s' = N x' ∧
     (silent hooked l = true → silent hooked l' = true) ∧
@@ -177,18 +182,6 @@ def SimOK (v : Variant) (hooked : Bool) (s : State) (l : Label) (x' : State) : P
 theorem simSame {v hooked s l x' s'} (h1 : step v s l = some s') (h2 : N s' = N x') :
     SimOK v hooked s l x' :=
   ⟨l, s', h1, h2, fun h => h, fun _ h => obs_transfer h⟩
-
-theorem sim_cancel {v hooked s i x'} (hs : step v (N s) (.cancel i) = some x') :
-    SimOK v hooked s (.cancel i) x' := by
-  simp only [step, cancel, N_get] at hs
-  cases hu : s.subs[i]? with
-  | none => simp [hu] at hs
-  | some u =>
-    simp [hu] at hs
-    subst hs
-    refine simSame (s' := setSub s i { u with cancelled := true }) (by simp [step, cancel, hu]) ?_
-    exact (N_setSub (by cases hp : u.pc <;> simp [normSub, hp])).symm
-
 
 theorem sim_global {v hooked s l x'} (hl : l.global = true) (hs : step v (N s) l = some x') :
     SimOK v hooked s l x' := by
@@ -387,7 +380,6 @@ theorem sim_step {v : Variant} (hooked : Bool) {s : State} (hr : Reach v s) {l :
   case bcSkipExit => exact sim_skip (Or.inl rfl) hs
   case bcSkipClose => exact sim_skip (Or.inr (Or.inl rfl)) hs
   case bcSkipGone => exact sim_skip (Or.inr (Or.inr rfl)) hs
-  case cancel i => exact sim_cancel hs
   case fwdTake i => exact sim_fwdTake hs
   case fwdDeliver i => exact sim_fwdDeliver hs
   case fwdExitCtx i => exact sim_fwdExitCtx hs
